@@ -322,3 +322,881 @@ def placed(e: tuple) -> Optional[Tuple[tuple, int]]:
     if e[0] == 'bin' and e[1] == '<<' and e[3][0] == 'int':
         return (e[2], e[3][1])
     return (e, 0)
+
+
+# --------------------------------------------------------------------------------------
+# a concrete interpreter for small extracted Python functions (never Python's own eval/exec)
+# --------------------------------------------------------------------------------------
+#
+# Used to evaluate a whole converter body (statements, early returns, nested helper functions, module-level helpers and tables)
+# on chosen inputs, so that rules compare *behaviour on a finite domain* instead of one particular statement shape.
+
+
+class PyRaise(Exception):
+    """The interpreted program raises (assert, raise, IndexError, struct.error, ...)."""
+
+
+class _PyReturn(Exception):
+    def __init__(self, value: Any):
+        self.value = value
+
+
+class _PyBreak(Exception):
+    pass
+
+
+class _PyContinue(Exception):
+    pass
+
+
+class PyObj:
+    """Attribute bag standing for an object of the modelled program (e.g. a Call value with .alleles/.ploidy/.phased)."""
+
+    def __init__(self, kind: str, **attrs: Any):
+        self.kind = kind
+        self.attrs = attrs
+        self.methods: Dict[str, Callable[..., Any]] = {}
+        self.cls: Optional['PyClass'] = None
+
+    def __repr__(self) -> str:
+        return f'{self.kind}({", ".join(f"{k}={v!r}" for k, v in self.attrs.items())})'
+
+
+class PyClass:
+    """A class of the interpreted module: calling it builds a PyObj and runs the class's own __init__ through the interpreter."""
+
+    def __init__(self, interp: 'PyInterp', cdef: ast.ClassDef):
+        self.interp, self.cdef = interp, cdef
+        self.name = cdef.name
+
+    def lookup(self, name: str, seen: Tuple[str, ...] = ()) -> Optional[ast.AST]:
+        found = None
+        for st in self.cdef.body:
+            if isinstance(st, (ast.FunctionDef, ast.AsyncFunctionDef)) and st.name == name:
+                found = st
+            elif isinstance(st, ast.Assign) and any(isinstance(t, ast.Name) and t.id == name for t in st.targets):
+                found = st
+            elif isinstance(st, ast.AnnAssign) and isinstance(st.target, ast.Name) and st.target.id == name and st.value is not None:
+                found = st
+        if found is not None:
+            return found
+        for b in self.cdef.bases:
+            d = pf.dotted(b)
+            if d in self.interp._top_classes and d not in seen and d != self.name:
+                r = PyClass(self.interp, self.interp._top_classes[d]).lookup(name, seen + (self.name,))
+                if r is not None:
+                    return r
+        return None
+
+    def member(self, name: str, obj: Optional['PyObj'], node: ast.AST) -> Any:
+        """value of attribute `name` looked up on the class (obj = the instance it is accessed through, or None)"""
+        d = self.lookup(name)
+        if d is None:
+            self.interp.fail(node, f'class {self.name} has no member `{name}` in {self.interp.m.rel}')
+        if isinstance(d, (ast.Assign, ast.AnnAssign)):
+            return self.interp.expr(d.value, _Env(None))
+        decos = pf.decorator_names(d)
+        clo = PyClosure(self.interp, d, None)
+        if 'staticmethod' in decos:
+            return clo
+        if 'classmethod' in decos:
+            return lambda *a, **k: clo(self, *a, **k)
+        if obj is None:
+            return clo
+        if 'property' in decos or 'functools.cached_property' in decos or 'cached_property' in decos:
+            return clo(obj)
+        return lambda *a, **k: clo(obj, *a, **k)
+
+    def __call__(self, *args: Any, **kwargs: Any) -> 'PyObj':
+        obj = PyObj(self.name)
+        obj.cls = self
+        if self.lookup('__init__') is not None:
+            self.member('__init__', obj, self.cdef)(*args, **kwargs)
+        return obj
+
+
+class PyClosure:
+    def __init__(self, interp: 'PyInterp', fn: ast.FunctionDef, env: Optional['_Env']):
+        self.interp, self.fn, self.env = interp, fn, env
+
+    def __call__(self, *args: Any, **kwargs: Any) -> Any:
+        return self.interp.call_function(self.fn, list(args), kwargs, self.env)
+
+
+class _Env:
+    def __init__(self, parent: Optional['_Env']):
+        self.vars: Dict[str, Any] = {}
+        self.parent = parent
+
+    def lookup(self, name: str) -> Tuple[bool, Any]:
+        e: Optional[_Env] = self
+        while e is not None:
+            if name in e.vars:
+                return True, e.vars[name]
+            e = e.parent
+        return False, None
+
+
+_MATH = {'sqrt': math.sqrt, 'floor': math.floor, 'ceil': math.ceil, 'isqrt': math.isqrt, 'log2': math.log2}
+
+
+class PyInterp:
+    def __init__(self, m: pf.Module, externals: Optional[Dict[str, Any]] = None, max_steps: int = 400000):
+        self.m = m
+        self.externals = externals or {}   # dotted name -> value / callable (e.g. 'genetics.Call')
+        self.max_steps = max_steps
+        self.steps = 0
+        self._globals: Dict[str, Any] = {}
+        self._top_funcs = {f.name: f for f in m.tree.body if isinstance(f, ast.FunctionDef)}
+        self._top_classes = {c.name: c for c in m.tree.body if isinstance(c, ast.ClassDef)}
+
+    def fail(self, node: Optional[ast.AST], msg: str):
+        raise AnalysisError(f'{self.m.rel} (line {getattr(node, "lineno", 0)}): interpreter: {msg}')
+
+    # ---- names -------------------------------------------------------------------
+    def global_value(self, name: str, node: ast.AST) -> Any:
+        if name in self._globals:
+            return self._globals[name]
+        if name in self._top_funcs:
+            v: Any = PyClosure(self, self._top_funcs[name], None)
+        elif name in self._top_classes:
+            v = PyClass(self, self._top_classes[name])
+        elif name in self.m.imports():
+            v = PyObj('import:' + name)   # an imported name: opaque (only usable where the interpreter special-cases it, e.g. isinstance)
+        else:
+            try:
+                e = self.m.global_assign(name)
+            except AnalysisError:
+                self.fail(node, f'unbound name `{name}`')
+            v = self.expr(e, _Env(None))
+        self._globals[name] = v
+        return v
+
+    def call_function(self, fn: ast.FunctionDef, args: List[Any], kwargs: Dict[str, Any], closure_env: Optional[_Env]) -> Any:
+        a = fn.args
+        if a.vararg or a.kwarg or a.posonlyargs:
+            self.fail(fn, f'{fn.name}: star parameters')
+        env = _Env(closure_env)
+        params = [x.arg for x in a.args]
+        if len(args) > len(params):
+            raise PyRaise(f'TypeError: {fn.name}() takes {len(params)} positional arguments but {len(args)} were given')
+        for p, v in zip(params, args):
+            env.vars[p] = v
+        defaults = dict(zip(params[len(params) - len(a.defaults):], a.defaults))
+        for p, d in zip([x.arg for x in a.kwonlyargs], a.kw_defaults):
+            if d is not None:
+                defaults[p] = d
+        for k, v in kwargs.items():
+            if k in env.vars or k not in params + [x.arg for x in a.kwonlyargs]:
+                raise PyRaise(f'TypeError: {fn.name}() got an unexpected or duplicate keyword argument {k!r}')
+            env.vars[k] = v
+        for p in params + [x.arg for x in a.kwonlyargs]:
+            if p not in env.vars:
+                if p not in defaults:
+                    raise PyRaise(f'TypeError: {fn.name}() missing argument {p!r}')
+                env.vars[p] = self.expr(defaults[p], _Env(closure_env))
+        try:
+            self.block(fn.body, env)
+        except _PyReturn as r:
+            return r.value
+        return None
+
+    # ---- statements -----------------------------------------------------------------
+    def block(self, stmts: List[ast.stmt], env: _Env) -> None:
+        for st in stmts:
+            self.stmt(st, env)
+
+    def tick(self, node: ast.AST):
+        self.steps += 1
+        if self.steps > self.max_steps:
+            self.fail(node, 'evaluation does not terminate')
+
+    def assign(self, t: ast.AST, v: Any, env: _Env) -> None:
+        if isinstance(t, ast.Name):
+            env.vars[t.id] = v
+        elif isinstance(t, (ast.Tuple, ast.List)):
+            try:
+                vals = list(v)
+            except TypeError:
+                raise PyRaise('TypeError: cannot unpack')
+            if len(vals) != len(t.elts):
+                raise PyRaise(f'ValueError: unpacking {len(vals)} values into {len(t.elts)} targets')
+            for x, y in zip(t.elts, vals):
+                self.assign(x, y, env)
+        elif isinstance(t, ast.Subscript):
+            base = self.expr(t.value, env)
+            idx = self.expr(t.slice, env)
+            if isinstance(base, (list, dict)):
+                try:
+                    base[idx] = v
+                except (IndexError, TypeError, KeyError) as ex:
+                    raise PyRaise(f'{type(ex).__name__}: {ex}')
+            else:
+                self.fail(t, 'store into an unsupported container')
+        elif isinstance(t, ast.Attribute):
+            base = self.expr(t.value, env)
+            if isinstance(base, PyObj):
+                base.attrs[t.attr] = v
+            else:
+                self.fail(t, f'attribute store on `{pf.nsrc(t.value)[:40]}`')
+        else:
+            self.fail(t, f'unsupported assignment target `{pf.nsrc(t)[:40]}`')
+
+    def stmt(self, st: ast.stmt, env: _Env) -> None:
+        self.tick(st)
+        if isinstance(st, ast.FunctionDef):
+            env.vars[st.name] = PyClosure(self, st, env)
+        elif isinstance(st, (ast.Pass, ast.Import, ast.ImportFrom)):
+            return
+        elif isinstance(st, ast.Expr):
+            if isinstance(st.value, ast.Constant):
+                return
+            self.expr(st.value, env)
+        elif isinstance(st, ast.Assign):
+            v = self.expr(st.value, env)
+            for t in st.targets:
+                self.assign(t, v, env)
+        elif isinstance(st, ast.AnnAssign):
+            if st.value is not None:
+                self.assign(st.target, self.expr(st.value, env), env)
+        elif isinstance(st, ast.AugAssign):
+            cur = self.expr(st.target, env)
+            v = self.binop(st, type(st.op), cur, self.expr(st.value, env))
+            self.assign(st.target, v, env)
+        elif isinstance(st, ast.If):
+            self.block(st.body if self.expr(st.test, env) else st.orelse, env)
+        elif isinstance(st, ast.While):
+            n = 0
+            while self.expr(st.test, env):
+                n += 1
+                if n > 100000:
+                    self.fail(st, 'loop does not terminate')
+                try:
+                    self.block(st.body, env)
+                except _PyBreak:
+                    break
+                except _PyContinue:
+                    continue
+        elif isinstance(st, ast.For):
+            for item in self.iterate(self.expr(st.iter, env), st.iter):
+                self.assign(st.target, item, env)
+                try:
+                    self.block(st.body, env)
+                except _PyBreak:
+                    break
+                except _PyContinue:
+                    continue
+        elif isinstance(st, ast.Return):
+            raise _PyReturn(self.expr(st.value, env) if st.value is not None else None)
+        elif isinstance(st, ast.Raise):
+            raise PyRaise('raise ' + (pf.nsrc(st.exc)[:80] if st.exc is not None else ''))
+        elif isinstance(st, ast.Assert):
+            if not self.expr(st.test, env):
+                raise PyRaise('AssertionError: ' + pf.nsrc(st.test)[:80])
+        elif isinstance(st, ast.Break):
+            raise _PyBreak()
+        elif isinstance(st, ast.Continue):
+            raise _PyContinue()
+        else:
+            self.fail(st, f'unsupported statement {type(st).__name__}')
+
+    def iterate(self, v: Any, node: ast.AST) -> List[Any]:
+        if isinstance(v, (list, tuple, range, str)):
+            return list(v)
+        self.fail(node, f'cannot iterate over `{pf.nsrc(node)[:40]}`')
+        return []
+
+    # ---- expressions ---------------------------------------------------------------------
+    def binop(self, node: ast.AST, op: type, a: Any, b: Any) -> Any:
+        num = (int, float)
+        try:
+            if op in (ast.LShift, ast.RShift, ast.BitOr, ast.BitAnd, ast.BitXor):
+                if not (isinstance(a, int) and isinstance(b, int)):
+                    raise PyRaise(f'TypeError: bit operator on {type(a).__name__}, {type(b).__name__} in `{pf.nsrc(node)[:60]}`')
+                if op in (ast.LShift, ast.RShift) and (b < 0 or b > 4096):
+                    raise PyRaise('ValueError: shift count')
+                return {ast.LShift: lambda: a << b, ast.RShift: lambda: a >> b, ast.BitOr: lambda: a | b, ast.BitAnd: lambda: a & b, ast.BitXor: lambda: a ^ b}[op]()
+            if op is ast.Add and isinstance(a, (list, tuple, str)) and isinstance(b, type(a)):
+                return a + b
+            if op is ast.Mult and isinstance(a, (list, tuple)) and isinstance(b, int):
+                return a * b
+            if not (isinstance(a, num) and isinstance(b, num)):
+                raise PyRaise(f'TypeError: arithmetic on {type(a).__name__}, {type(b).__name__} in `{pf.nsrc(node)[:60]}`')
+            if op is ast.Pow:
+                if isinstance(b, int) and abs(b) > 4096:
+                    self.fail(node, 'power out of the analysed range')
+                return a ** b
+            return {ast.Add: lambda: a + b, ast.Sub: lambda: a - b, ast.Mult: lambda: a * b, ast.FloorDiv: lambda: a // b, ast.Div: lambda: a / b, ast.Mod: lambda: a % b}[op]()
+        except KeyError:
+            self.fail(node, 'unsupported operator')
+        except (ZeroDivisionError, OverflowError, ValueError) as ex:
+            raise PyRaise(f'{type(ex).__name__}: {ex}')
+
+    def expr(self, e: ast.AST, env: _Env) -> Any:
+        self.tick(e)
+        if isinstance(e, ast.Constant):
+            return e.value
+        if isinstance(e, ast.Name):
+            ok, v = env.lookup(e.id)
+            if ok:
+                return v
+            if e.id in self.externals:
+                return self.externals[e.id]
+            if e.id in _BUILTINS:
+                return _BUILTINS[e.id]
+            return self.global_value(e.id, e)
+        if isinstance(e, (ast.List, ast.Tuple)):
+            vals = [self.expr(x, env) for x in e.elts]
+            return vals if isinstance(e, ast.List) else tuple(vals)
+        if isinstance(e, ast.Attribute):
+            d = pf.dotted(e)
+            if d is not None and d in self.externals:
+                return self.externals[d]
+            if d is not None and d.startswith('math.') and d[5:] in _MATH:
+                return _MATH[d[5:]]
+            base = self.expr(e.value, env)
+            if isinstance(base, PyObj):
+                if e.attr in base.attrs:
+                    return base.attrs[e.attr]
+                if e.attr in base.methods:
+                    return base.methods[e.attr]
+                if base.kind == 'super':
+                    return lambda *a, **k: None
+                if base.cls is not None:
+                    return base.cls.member(e.attr, base, e)
+                self.fail(e, f'object {base.kind} has no modelled attribute `{e.attr}`')
+            if isinstance(base, PyClass):
+                return base.member(e.attr, None, e)
+            self.fail(e, f'unsupported attribute `{pf.nsrc(e)[:60]}`')
+        if isinstance(e, ast.Subscript):
+            base = self.expr(e.value, env)
+            if isinstance(e.slice, ast.Slice):
+                lo = self.expr(e.slice.lower, env) if e.slice.lower is not None else None
+                hi = self.expr(e.slice.upper, env) if e.slice.upper is not None else None
+                stp = self.expr(e.slice.step, env) if e.slice.step is not None else None
+                if isinstance(base, (list, tuple, str)):
+                    return base[lo:hi:stp]
+                self.fail(e, 'slice of an unsupported value')
+            idx = self.expr(e.slice, env)
+            if isinstance(base, PyObj) and base.cls is not None and base.cls.lookup('__getitem__') is not None:
+                return base.cls.member('__getitem__', base, e)(idx)
+            if isinstance(base, (list, tuple, str, dict)):
+                try:
+                    return base[idx]
+                except (IndexError, KeyError, TypeError) as ex:
+                    raise PyRaise(f'{type(ex).__name__}: `{pf.nsrc(e)[:50]}` with index {idx!r}')
+            self.fail(e, f'unsupported subscript `{pf.nsrc(e)[:60]}`')
+        if isinstance(e, ast.UnaryOp):
+            v = self.expr(e.operand, env)
+            if isinstance(e.op, ast.Not):
+                return not v
+            if isinstance(v, (int, float)):
+                if isinstance(e.op, ast.USub):
+                    return -v
+                if isinstance(e.op, ast.UAdd):
+                    return +v
+                if isinstance(e.op, ast.Invert) and isinstance(v, int):
+                    return ~v
+            raise PyRaise('TypeError: unary operator')
+        if isinstance(e, ast.BinOp):
+            return self.binop(e, type(e.op), self.expr(e.left, env), self.expr(e.right, env))
+        if isinstance(e, ast.BoolOp):
+            res: Any = None
+            for v in e.values:
+                res = self.expr(v, env)
+                if isinstance(e.op, ast.And) and not res:
+                    return res
+                if isinstance(e.op, ast.Or) and res:
+                    return res
+            return res
+        if isinstance(e, ast.Compare):
+            left = self.expr(e.left, env)
+            for op, c in zip(e.ops, e.comparators):
+                right = self.expr(c, env)
+                try:
+                    ok = {ast.Eq: lambda: left == right, ast.NotEq: lambda: left != right, ast.Lt: lambda: left < right, ast.LtE: lambda: left <= right,
+                          ast.Gt: lambda: left > right, ast.GtE: lambda: left >= right, ast.Is: lambda: left is right, ast.IsNot: lambda: left is not right,
+                          ast.In: lambda: left in right, ast.NotIn: lambda: left not in right}[type(op)]()
+                except TypeError as ex:
+                    raise PyRaise(f'TypeError: {ex}')
+                if not ok:
+                    return False
+                left = right
+            return True
+        if isinstance(e, ast.IfExp):
+            return self.expr(e.body, env) if self.expr(e.test, env) else self.expr(e.orelse, env)
+        if isinstance(e, (ast.ListComp, ast.GeneratorExp)):
+            out: List[Any] = []
+            inner = _Env(env)
+
+            def gen(i: int):
+                if i == len(e.generators):
+                    out.append(self.expr(e.elt, inner))
+                    return
+                g = e.generators[i]
+                for item in self.iterate(self.expr(g.iter, inner), g.iter):
+                    self.assign(g.target, item, inner)
+                    if all(self.expr(c, inner) for c in g.ifs):
+                        gen(i + 1)
+            gen(0)
+            return out
+        if isinstance(e, ast.Call) and isinstance(e.func, ast.Name) and e.func.id == 'isinstance' and len(e.args) == 2 and not env.lookup('isinstance')[0]:
+            v = self.expr(e.args[0], env)
+            names = [pf.dotted(x) for x in (e.args[1].elts if isinstance(e.args[1], ast.Tuple) else [e.args[1]])]
+            table = {'int': lambda x: isinstance(x, int) and not isinstance(x, bool), 'bool': lambda x: isinstance(x, bool), 'float': lambda x: isinstance(x, float),
+                     'str': lambda x: isinstance(x, str), 'list': lambda x: isinstance(x, list), 'tuple': lambda x: isinstance(x, tuple),
+                     'Sequence': lambda x: isinstance(x, (list, tuple, str)), 'abc.Sequence': lambda x: isinstance(x, (list, tuple, str)),
+                     'collections.abc.Sequence': lambda x: isinstance(x, (list, tuple, str))}
+            res = False
+            for n in names:
+                if n in table:
+                    res = res or table[n](v)
+                elif n is not None and isinstance(v, PyObj) and v.cls is not None:
+                    res = res or v.cls.name == n.split('.')[-1]
+                else:
+                    res = True  # a type outside the table: values are assumed well-typed
+            return res
+        if isinstance(e, ast.Call):
+            f = self.expr(e.func, env)
+            args = []
+            for a in e.args:
+                if isinstance(a, ast.Starred):
+                    args += self.iterate(self.expr(a.value, env), a)
+                else:
+                    args.append(self.expr(a, env))
+            kwargs = {}
+            for k in e.keywords:
+                if k.arg is None:
+                    self.fail(e, '** arguments')
+                kwargs[k.arg] = self.expr(k.value, env)
+            if not callable(f):
+                raise PyRaise(f'TypeError: `{pf.nsrc(e.func)[:40]}` is not callable')
+            try:
+                return f(*args, **kwargs)
+            except (PyRaise, AnalysisError, _PyReturn, _PyBreak, _PyContinue):
+                raise
+            except (TypeError, ValueError, OverflowError, ZeroDivisionError, IndexError) as ex:
+                raise PyRaise(f'{type(ex).__name__}: {ex} in `{pf.nsrc(e)[:60]}`')
+        if isinstance(e, ast.JoinedStr):
+            return '<f-string>'
+        self.fail(e, f'unsupported expression `{pf.nsrc(e)[:60]}`')
+
+
+def _b_int(x: Any = 0) -> int:
+    if isinstance(x, (int, float, bool)):
+        return int(x)
+    if isinstance(x, str):
+        return int(x)
+    raise TypeError('int() of an unsupported value')
+
+
+def _b_float(x: Any = 0.0) -> float:
+    if isinstance(x, (int, float, bool, str)):
+        return float(x)
+    raise TypeError('float() of an unsupported value')
+
+
+def _b_len(x: Any) -> int:
+    if isinstance(x, PyObj):
+        if x.cls is not None and x.cls.lookup('__len__') is not None:
+            return x.cls.member('__len__', x, x.cls.cdef)()
+        raise TypeError(f'object of type {x.kind} has no len()')
+    return len(x)
+
+
+_BUILTINS: Dict[str, Any] = {
+    'int': _b_int, 'float': _b_float, 'bool': lambda x=False: bool(x), 'len': _b_len, 'super': lambda *a: PyObj('super'), 'hash': lambda x: 0, 'range': lambda *a: range(*a), 'min': lambda *a: min(*a), 'max': lambda *a: max(*a),
+    'abs': lambda x: abs(x), 'list': lambda x=(): list(x), 'tuple': lambda x=(): tuple(x), 'sorted': lambda x: sorted(x), 'divmod': lambda a, b: divmod(a, b),
+    'enumerate': lambda x, start=0: list(enumerate(x, start)), 'zip': lambda *a: list(zip(*a)), 'reversed': lambda x: list(reversed(x)), 'sum': lambda x: sum(x),
+    'True': True, 'False': False, 'None': None, 'isinstance': lambda *a: True, 'str': lambda x='': str(x) if isinstance(x, (int, str, bool)) else '<str>',
+}
+
+
+# --------------------------------------------------------------------------------------
+# symbolic path execution of a small function into IR trees, and a sign / agreeing-low-bits domain over them
+# --------------------------------------------------------------------------------------
+
+
+class SymPath:
+    def __init__(self):
+        self.conds: List[Tuple[tuple, bool, int]] = []   # (condition tree, branch taken, line)
+        self.asserts: List[tuple] = []
+        self.writes: List[Tuple[str, tuple, int]] = []   # (stream method, argument tree, line)
+        self.end: tuple = ('fall',)                      # ('return', tree | None, line) | ('raise', text, line) | ('fall',)
+        self.env: Dict[str, Any] = {}
+
+    def clone(self) -> 'SymPath':
+        p = SymPath()
+        p.conds, p.asserts, p.writes, p.end, p.env = list(self.conds), list(self.asserts), list(self.writes), self.end, dict(self.env)
+        return p
+
+
+def conj(conds: List[Tuple[tuple, bool, int]]) -> tuple:
+    out: Optional[tuple] = None
+    for t, pol, _ in conds:
+        x = t if pol else ('un', '!', t)
+        out = x if out is None else ('bin', '&&', out, x)
+    return out if out is not None else ('bool', True)
+
+
+class SymExec:
+    """Executes the statements of a function over IR trees: locals are substituted, `if` forks, nested helper functions are inlined at
+    their calls (their own branches become ('if', c, a, b) trees), reads from the byte stream become the symbol named by `word`."""
+
+    def __init__(self, where: str, stream: Optional[str], word: str = '$w', max_paths: int = 256, max_depth: int = 8,
+                 resolver: Optional[Callable[[str], Optional[Tuple[ast.FunctionDef, int]]]] = None):
+        """resolver(dotted callee name) -> (function definition, number of leading parameters already bound by the call form, e.g. 1 for
+        `self.h(...)` on a plain method) for helpers defined outside the function (methods, module-level functions); None = opaque."""
+        self.where, self.stream, self.word = where, stream, word
+        self.max_paths, self.max_depth = max_paths, max_depth
+        self.resolver = resolver
+        self.reads: List[Tuple[str, int]] = []
+
+    def fail(self, node: Optional[ast.AST], msg: str):
+        raise AnalysisError(f'{self.where} (line {getattr(node, "lineno", 0)}): {msg}')
+
+    # ---- expressions -------------------------------------------------------------
+    def tree(self, e: ast.AST, env: Dict[str, Any], depth: int = 0) -> tuple:
+        if isinstance(e, ast.Call) and isinstance(e.func, ast.Attribute) and isinstance(e.func.value, ast.Name) and self.stream and e.func.value.id == self.stream:
+            if e.func.attr.startswith('read_') and not e.args:
+                self.reads.append((e.func.attr, e.lineno))
+                return ('name', self.word)
+            self.fail(e, f'stream operation `{pf.nsrc(e)[:50]}` in a value position')
+        return self.subst(from_py(e), env, e, depth)
+
+    def subst(self, t: Any, env: Dict[str, Any], node: ast.AST, depth: int) -> Any:
+        if isinstance(t, list):
+            return [self.subst(x, env, node, depth) for x in t]
+        if not isinstance(t, tuple) or not t:
+            return t
+        k = t[0]
+        if k == 'name':
+            n = t[1]
+            if n in env and not isinstance(env[n], _SymClosure):
+                return env[n]
+            if '.' in n:
+                base, rest = n.split('.', 1)
+                if base in env and not isinstance(env[base], _SymClosure):
+                    out = env[base]
+                    for a in rest.split('.'):
+                        out = ('sel', out, a)
+                    return out
+            return t
+        if k == 'call':
+            fn = t[1]
+            args = [(kw, self.subst(a, env, node, depth)) for kw, a in t[2]]
+            if fn[0] == 'name' and isinstance(env.get(fn[1]), _SymClosure):
+                return self.inline(env[fn[1]], args, env, node, depth)
+            fn2 = self.subst(fn, env, node, depth)   # a local alias of a helper (`f = self._helper`) resolves to the helper
+            if fn2[0] == 'name' and self.resolver is not None and (fn2 != fn or fn[1].split('.')[0] not in env):
+                r = self.resolver(fn2[1])
+                if r is not None and depth < self.max_depth:
+                    return self.inline(_SymClosure(r[0], skip=r[1], own_scope=True), args, env, node, depth)
+            return ('call', fn2, args, None)
+        if k in ('int', 'float', 'bool', 'str'):
+            return t
+        return tuple(self.subst(x, env, node, depth) if isinstance(x, (tuple, list)) else x for x in t)
+
+    def inline(self, clo: '_SymClosure', args: List[Tuple[Optional[str], tuple]], env: Dict[str, Any], node: ast.AST, depth: int) -> tuple:
+        if depth >= self.max_depth:
+            self.fail(node, f'helper calls nested deeper than {self.max_depth}')
+        fn = clo.fn
+        a = fn.args
+        if a.vararg or a.kwarg or a.posonlyargs or a.kwonlyargs:
+            self.fail(fn, f'helper {fn.name} has star / keyword-only parameters')
+        params = [x.arg for x in a.args][clo.skip:]
+        bound: Dict[str, Any] = {}
+        pos = [v for kw, v in args if kw is None]
+        if len(pos) > len(params):
+            self.fail(node, f'too many arguments for helper {fn.name}')
+        for p, v in zip(params, pos):
+            bound[p] = v
+        for kw, v in args:
+            if kw is not None:
+                if kw not in params or kw in bound:
+                    self.fail(node, f'bad keyword {kw} for helper {fn.name}')
+                bound[kw] = v
+        defaults = dict(zip(params[len(params) - len(a.defaults):], a.defaults))
+        for p in params:
+            if p not in bound:
+                if p not in defaults:
+                    self.fail(node, f'argument {p} of helper {fn.name} unbound')
+                bound[p] = from_py(defaults[p])
+        # Python closures see the *current* bindings of the enclosing function; functions defined elsewhere only their own parameters
+        inner_env = {} if clo.own_scope else dict(env)
+        inner_env.update(bound)
+        start = SymPath()
+        start.env = inner_env
+        paths = self.block(fn.body, [start], depth + 1)
+        out: Optional[tuple] = None
+        for p in reversed(paths):
+            if p.writes:
+                self.fail(fn, f'helper {fn.name} performs stream output (inlined in a value position)')
+            if p.end[0] == 'return' and p.end[1] is not None:
+                leaf = p.end[1]
+            elif p.end[0] == 'raise':
+                leaf = ('raise', p.end[1])
+            else:
+                leaf = ('name', 'None')
+            out = leaf if out is None else ('if', conj(p.conds), leaf, out)
+        if out is None:
+            self.fail(fn, f'helper {fn.name} has no path')
+        return out
+
+    # ---- statements -------------------------------------------------------------------
+    def run(self, fn: pf.FuncDef, env: Dict[str, Any]) -> List[SymPath]:
+        start = SymPath()
+        start.env = dict(env)
+        body = [s for s in fn.body if not (isinstance(s, ast.Expr) and isinstance(s.value, ast.Constant))]
+        return self.block(body, [start], 0)
+
+    def block(self, stmts: List[ast.stmt], live: List[SymPath], depth: int) -> List[SymPath]:
+        done: List[SymPath] = []
+        for st in stmts:
+            if not live:
+                break
+            nxt: List[SymPath] = []
+            for p in live:
+                for q in self.stmt(st, p, depth):
+                    (nxt if q.end[0] == 'fall' else done).append(q)
+            live = nxt
+            if len(live) + len(done) > self.max_paths:
+                self.fail(st, 'too many paths')
+        return done + live
+
+    def stmt(self, st: ast.stmt, p: SymPath, depth: int) -> List[SymPath]:
+        env = p.env
+        if isinstance(st, ast.FunctionDef):
+            env[st.name] = _SymClosure(st)
+            return [p]
+        if isinstance(st, (ast.Pass, ast.Import, ast.ImportFrom)):
+            return [p]
+        if isinstance(st, ast.Expr):
+            v = st.value
+            if isinstance(v, ast.Constant):
+                return [p]
+            if isinstance(v, ast.Call) and isinstance(v.func, ast.Attribute) and isinstance(v.func.value, ast.Name) and self.stream and v.func.value.id == self.stream:
+                if len(v.args) != 1 or v.keywords:
+                    self.fail(st, f'stream operation `{pf.nsrc(v)[:50]}` with unexpected arguments')
+                p.writes.append((v.func.attr, self.tree(v.args[0], env, depth), st.lineno))
+                return [p]
+            self.fail(st, f'expression statement `{pf.nsrc(st)[:60]}` (unrecognised effect)')
+        if isinstance(st, (ast.Assign, ast.AnnAssign)):
+            if isinstance(st, ast.AnnAssign):
+                if st.value is None:
+                    return [p]
+                targets, value = [st.target], st.value
+            else:
+                targets, value = st.targets, st.value
+            t = self.tree(value, env, depth)
+            for tg in targets:
+                self.bind(tg, t, env, st)
+            return [p]
+        if isinstance(st, ast.AugAssign):
+            if not isinstance(st.target, ast.Name) or type(st.op) not in _PY_BIN:
+                self.fail(st, f'augmented assignment `{pf.nsrc(st)[:60]}`')
+            cur = env.get(st.target.id, ('name', st.target.id))
+            env[st.target.id] = ('bin', _PY_BIN[type(st.op)], cur, self.tree(st.value, env, depth))
+            return [p]
+        if isinstance(st, ast.Assert):
+            p.asserts.append(self.tree(st.test, env, depth))
+            return [p]
+        if isinstance(st, ast.Return):
+            p.end = ('return', self.tree(st.value, env, depth) if st.value is not None else None, st.lineno)
+            return [p]
+        if isinstance(st, ast.Raise):
+            p.end = ('raise', pf.nsrc(st.exc)[:60] if st.exc is not None else 'raise', st.lineno)
+            return [p]
+        if isinstance(st, ast.If):
+            c = self.tree(st.test, env, depth)
+            out: List[SymPath] = []
+            for pol, body in ((True, st.body), (False, st.orelse)):
+                q = p.clone()
+                q.conds.append((c, pol, st.lineno))
+                out += self.block(body, [q], depth)
+            return out
+        self.fail(st, f'unsupported statement {type(st).__name__} in a packing / unpacking function')
+        return []
+
+    def bind(self, tg: ast.AST, t: tuple, env: Dict[str, Any], st: ast.stmt) -> None:
+        if isinstance(tg, ast.Name):
+            env[tg.id] = t
+        elif isinstance(tg, (ast.Tuple, ast.List)) and all(isinstance(x, ast.Name) for x in tg.elts):
+            for i, x in enumerate(tg.elts):
+                env[x.id] = t[1][i] if t[0] == 'list' and len(t[1]) == len(tg.elts) else ('index', t, ('int', i))
+        else:
+            self.fail(st, f'assignment target `{pf.nsrc(tg)[:40]}`')
+
+
+class _SymClosure:
+    def __init__(self, fn: ast.FunctionDef, skip: int = 0, own_scope: bool = False):
+        self.fn, self.skip, self.own_scope = fn, skip, own_scope
+
+
+def const_value(t: tuple) -> Optional[int]:
+    """Integer value of a tree without names, else None."""
+    if any(n and n[0] in ('name', 'call', 'sel', 'index', 'raise') for n in S.walk(t)):
+        return None
+    try:
+        v = ev(t, {}, 'py')
+    except (AnalysisError, Undefined, TypeError, ValueError):
+        return None
+    return v if isinstance(v, int) and not isinstance(v, bool) else None
+
+
+class SignDomain:
+    """How many low bits of an integer expression over the raw signed word `word` (a 32-bit two's complement read, so word == U mod 2^32
+    where U is the unsigned word the engine operates on) are guaranteed to equal those of the same expression over U.  `None` = the value
+    is exactly the unsigned-world value.  Uses of an inexact value where all bits matter (a decoded field, a comparison, an index, an
+    argument of another function) are recorded as findings."""
+
+    def __init__(self, word: str = '$w', width: int = 32):
+        self.word, self.width = word, width
+        self.findings: List[Tuple[tuple, int, str]] = []   # (subtree, agreeing bits, use)
+        self.opaque: List[Tuple[tuple, int, str]] = []     # inexact values handed to functions the analysis cannot see into (undecided)
+        self.bridges = 0
+
+    @staticmethod
+    def _sign_test(c: tuple) -> Optional[Tuple[tuple, bool]]:
+        """(x, True) if c says x >= 0; (x, False) if c says x < 0."""
+        if c[0] == 'un' and c[1] == '!':
+            r = SignDomain._sign_test(c[2])
+            return None if r is None else (r[0], not r[1])
+        if c[0] != 'bin' or c[1] not in ('>=', '>', '<', '<='):
+            return None
+        op, l, r = c[1], c[2], c[3]
+        lv, rv = const_value(l), const_value(r)
+        if rv is not None and lv is None:
+            if (op, rv) in (('>=', 0), ('>', -1)):
+                return (l, True)
+            if (op, rv) in (('<', 0), ('<=', -1)):
+                return (l, False)
+        if lv is not None and rv is None:
+            if (op, lv) in (('<=', 0), ('<', -1)):
+                return (r, True)
+            if (op, lv) in (('>', 0), ('>=', -1)):
+                return (r, False)
+        return None
+
+    def bits(self, t: tuple, facts: Dict[Any, bool]) -> Optional[int]:
+        """agreeing low bits of t (None = exact); facts: tree -> known non-negative (True) / negative (False)"""
+        k = t[0]
+        if k in ('int', 'float', 'bool', 'str'):
+            return None
+        if k == 'name':
+            if t[1] == self.word:
+                return None if facts.get(repr(t)) is True else self.width
+            return None
+        if k == 'raise':
+            return None
+        if k == 'un':
+            b = self.bits(t[2], facts)
+            return b if t[1] in ('-', '~', '+') else self.use(t[2], b, 'a boolean test', facts)
+        if k == 'if':
+            c, a, b = t[1], t[2], t[3]
+            st = self._sign_test(c)
+            if st is not None and self.bits(st[0], facts) is not None:
+                x, nonneg_then = st
+                fa, fb = dict(facts), dict(facts)
+                fa[repr(x)], fb[repr(x)] = nonneg_then, not nonneg_then
+                self.bridges += 1
+                ba, bb = self.bits(a, fa), self.bits(b, fb)
+            else:
+                self.cond(c, facts)
+                ba, bb = self.bits(a, facts), self.bits(b, facts)
+            if ba is None and bb is None:
+                return None
+            return min(x for x in (ba, bb) if x is not None)
+        if k == 'bin':
+            op, l, r = t[1], t[2], t[3]
+            if op in ('&&', '||'):
+                self.cond(l, facts)
+                self.cond(r, facts)
+                return None
+            if op in ('==', '!=', '<', '<=', '>', '>='):
+                bl, br = self.bits(l, facts), self.bits(r, facts)
+                self.use(l, bl, f'the comparison `{show(t)}`', facts)
+                self.use(r, br, f'the comparison `{show(t)}`', facts)
+                return None
+            bl, br = self.bits(l, facts), self.bits(r, facts)
+            if op in ('>>', '>>>'):
+                s = const_value(r)
+                if bl is None:
+                    self.use(r, br, 'a shift count', facts)
+                    return None
+                if s is None or s < 0:
+                    return 0
+                return max(bl - s, 0)
+            if op == '<<':
+                s = const_value(r)
+                if bl is None:
+                    return None
+                return bl + s if s is not None and s >= 0 else bl
+            if op == '&':
+                for x, bx, y, by in ((l, bl, r, br), (r, br, l, bl)):
+                    m = const_value(y)
+                    if bx is not None and m is not None and 0 <= m < (1 << bx):
+                        return None  # only bits that agree survive the mask
+                if bl is None and br is None:
+                    return None
+                return min(x for x in (bl, br) if x is not None)
+            if op == '%':
+                m = const_value(r)
+                if bl is not None and m is not None and m > 0 and m & (m - 1) == 0 and m.bit_length() - 1 <= bl:
+                    return None  # Python % is non-negative: x mod 2^k with k agreeing bits is exact
+                if bl is None and br is None:
+                    return None
+                self.use(l, bl, f'`{show(t)}`', facts)
+                return None
+            if op == '+' and bl is not None and facts.get(repr(l)) is False and const_value(r) == (1 << self.width) and bl >= self.width:
+                return None  # x < 0: x + 2^32 is the unsigned word
+            if op == '-' and bl is not None and facts.get(repr(l)) is False and const_value(r) == -(1 << self.width) and bl >= self.width:
+                return None
+            if op in ('|', '^', '+', '-', '*'):
+                if bl is None and br is None:
+                    return None
+                return min(x for x in (bl, br) if x is not None)
+            # division, power, ...: every bit matters
+            self.use(l, bl, f'`{show(t)}`', facts)
+            self.use(r, br, f'`{show(t)}`', facts)
+            return None
+        if k == 'list':
+            for x in t[1]:
+                self.use(x, self.bits(x, facts), 'an element of the decoded value', facts)
+            return None
+        if k == 'index':
+            self.use(t[1], self.bits(t[1], facts), 'an indexed table', facts)
+            self.use(t[2], self.bits(t[2], facts), f'the index of `{show(t)[:60]}`', facts)
+            return None
+        if k == 'sel':
+            self.use(t[1], self.bits(t[1], facts), 'an attribute access', facts)
+            return None
+        if k == 'call':
+            nm = t[1][1] if t[1][0] == 'name' else None
+            pure = nm in ('int', 'float', 'len', 'abs', 'bool', 'str', 'min', 'max', 'round') or (nm or '').startswith('math.')
+            for _, a in t[2]:
+                b = self.bits(a, facts)
+                if b is not None:
+                    if pure or nm is None:
+                        self.use(a, b, f'an argument of {show(t[1])}(...)', facts)
+                    else:
+                        self.opaque.append((a, b, f'an argument of {show(t[1])}(...), whose body is not available to the analysis'))
+            return None
+        return None
+
+    def cond(self, c: tuple, facts: Dict[Any, bool]) -> None:
+        if self._sign_test(c) is not None:
+            return
+        self.use(c, self.bits(c, facts), 'a branch condition', facts)
+
+    def use(self, t: tuple, b: Optional[int], what: str, facts: Dict[Any, bool]) -> None:
+        if b is not None:
+            self.findings.append((t, b, what))
+
+    def path_facts(self, conds: List[Tuple[tuple, bool, int]]) -> Dict[Any, bool]:
+        facts: Dict[Any, bool] = {}
+        for c, pol, _ in conds:
+            stt = self._sign_test(c if pol else ('un', '!', c))
+            if stt is not None:
+                facts[repr(stt[0])] = stt[1]
+        return facts
